@@ -13,7 +13,7 @@ func VH_C17_ArrayBatch() {
 	if vhParam("symT", 0) == 1 {
 		T = vhRange32("T", 256, 32768)
 	}
-	vhSetThreshold(T)
+	vhSetThresholdSym(T)
 	nmax := vhParam("n", 7)
 	n := vhChoose("n", nmax+1)
 	storage := vhNewBasicStorage()
